@@ -3009,6 +3009,17 @@ impl<'de, 'e> de::Deserializer<'de> for YamlDeserializer<'de, 'e> {
             where
                 T: de::DeserializeSeed<'de>,
             {
+                if !self.map_mode {
+                    // Bare `Variant`: there is no payload node. The events that follow belong to
+                    // the parent (the next sequence item, mapping entry or even document) and
+                    // must not be consumed - nor looked at: a lookahead at the root crosses the
+                    // document boundary (the next document's syntax error would be reported for
+                    // this one, and error recovery would discard the peeked document start).
+                    let location = self.ev.last_location();
+                    return seed
+                        .deserialize(serde::de::value::UnitDeserializer::<Error>::new())
+                        .map_err(|e| e.with_location(location));
+                }
                 // Get locations for error reporting before deserializing.
                 let defined_location = self
                     .ev
@@ -3017,15 +3028,6 @@ impl<'de, 'e> de::Deserializer<'de> for YamlDeserializer<'de, 'e> {
                     .unwrap_or_else(|| self.ev.last_location());
                 let reference_location = self.ev.reference_location();
 
-                if !self.map_mode {
-                    // Bare `Variant`: there is no payload node. The events that follow belong to
-                    // the parent (the next sequence item, mapping entry or even document) and
-                    // must not be consumed: present an absent (unit) payload instead.
-                    let location = self.ev.last_location();
-                    return seed
-                        .deserialize(serde::de::value::UnitDeserializer::<Error>::new())
-                        .map_err(|e| e.with_location(location));
-                }
                 let value = seed
                     .deserialize(YamlDeserializer::new(self.ev, self.cfg))
                     .map_err(|e| {
